@@ -203,6 +203,44 @@ def sweep(ctx, N):
             oke = all(float(a) == float(b) or abs(float(a) - float(b)) <= 1e-12 * abs(float(b)) for a, b in zip(dinfo.error_estimate[:n + 1], (info.error_estimate * fact)[:n + 1]))
             if not (okv and oke) or bool(dinfo.failed) != bool(info.failed) or bool(dinfo.degenerate) != bool(info.degenerate) or dinfo.iterations != info.iterations:
                 ctx.violation('derivative-scaling', 'derivative(f, z0, n=%d) is not taylor(f, z0, n) times k! (values %s, error estimates %s)' % (n, 'ok' if okv else 'differ', 'ok' if oke else 'differ'), desc)
+    # failed <-> the iteration cap stopped the search: the number of circles a run WOULD use is measured with a large cap (min_iter pinned),
+    # then the same run is repeated with caps below, at and above that number
+    ncap = 0
+    for it in range(max(6, N // 25)):
+        g = Fam(rng, m, kinds=('exp', 'sin', 'cos', 'inv'))
+        z0 = complex(rng.uniform(0, 1), rng.uniform(0, 1)) if it % 2 else float(rng.uniform(0, 1))
+        n = int(rng.integers(1, 13))
+        kw = dict(r=float(10 ** rng.uniform(-4, 0)), step_ratio=float(rng.uniform(1.3, 2.5)), num_extrap=int(rng.integers(1, 4)), min_iter=15)
+        calls = []
+
+        def fc(z, g=g):
+            calls.append(np.size(z))
+            return g.f(z)
+        with np.errstate(all='ignore'), warnings.catch_warnings():
+            warnings.simplefilter('ignore')
+            try:
+                c, info = taylor(fc, z0=z0, n=n, full_output=True, max_iter=200, **kw)
+            except Exception:   # noqa
+                continue
+            mm = len(c)
+            nfree = sum(1 for t in calls if t == mm)
+            if info.failed or nfree < 4 or nfree > 60:
+                continue
+            for cap in sorted({max(3, nfree - 5), nfree - 1, nfree, nfree + 3}):
+                del calls[:]
+                try:
+                    c2, info2 = taylor(fc, z0=z0, n=n, full_output=True, max_iter=cap, **kw)
+                except Exception as ex:   # noqa
+                    ctx.violation('raises:cap', 'taylor(..., max_iter=%d) raises %r' % (cap, ex), {'f': g.name, 'z0': repr(z0), 'n': n, 'options': dict(kw, max_iter=cap)})
+                    continue
+                ncap += 1
+                ctx.count(1, ('sweep', 'cap', cap < nfree))
+                circles = sum(1 for t in calls if t == mm)
+                if bool(info2.failed) != (cap < nfree) or circles != min(cap, nfree) or int(info2.iterations) != circles - 1:
+                    ctx.violation('failed-iff-cap', 'taylor(lambda z: %s, z0=%r, n=%d, max_iter=%d, %r): the search needs %d circles without a cap; with the cap it evaluated %d circles and reports failed=%r, iterations=%r' % (
+                        g.name, z0, n, cap, kw, nfree, circles, bool(info2.failed), int(info2.iterations)),
+                        {'f': g.name, 'z0': repr(z0), 'n': n, 'options': dict(kw, max_iter=cap), 'circles_without_cap': nfree, 'circles': circles, 'failed': bool(info2.failed), 'iterations': int(info2.iterations)})
+    ctx.cov['cap_cases'] = ncap
     ctx.cov['sweep_worst_ratio_to_bound'] = worst
     ctx.cov['default_radius_cases'] = nflag
     ctx.cov['default_radius_flagged'] = nflagged_cases
